@@ -2,6 +2,7 @@ package rules
 
 import (
 	"fmt"
+	"go/token"
 	"go/types"
 	"sort"
 	"strings"
@@ -300,16 +301,37 @@ func nilReturnReachable(fn *ssa.Function, q engine.PathQuery, depth int) (bool, 
 				mayNil = true
 				continue
 			}
-			if call, ri := engine.CallOf(o); call != nil && depth < 3 {
-				if h := call.Common().StaticCallee(); h != nil && len(h.Blocks) > 0 && engine.ErrResultIndex(h.Signature) == ri {
-					helpers = append(helpers, h)
+			if call, ri := engine.CallOf(o); call != nil {
+				if h := call.Common().StaticCallee(); h != nil && len(h.Blocks) > 0 {
+					if depth < 3 && engine.ErrResultIndex(h.Signature) == ri {
+						helpers = append(helpers, h)
+					}
+					continue
+				}
+				// an interface method or a function outside the analysed code: it may well return nil,
+				// unless it is one of the constructors of a fresh error
+				if n := engine.CalleeName(call); n != "fmt.Errorf" && n != "errors.New" && ri == engine.ErrResultIndex(call.Common().Signature()) {
+					mayNil = true
 				}
 			}
 		}
 		if !mayNil && len(helpers) == 0 {
 			continue
 		}
-		if ok, _ := engine.PathExists(fn, nil, engine.IsInstr(r), q); !ok {
+		// a return that sits behind the non-nil branch of the very value it returns is not a nil return
+		rq := q
+		rv := r.Results[idx]
+		var spilled ssa.Value // defer-spilled result: `*r = v; rundefers; t = *r; return t`
+		if ld, ok := rv.(*ssa.UnOp); ok && ld.Op == token.MUL {
+			if sts, zero := engine.ReachingStores(ld); len(sts) == 1 && !zero {
+				spilled = sts[0].Val
+			}
+		}
+		behind := engine.CutEdgesWhere(func(a engine.Atom) bool {
+			return a.Op == "nonnil" && (a.V == rv || sameVar(a.V, rv) || (spilled != nil && (a.V == spilled || sameVar(a.V, spilled))))
+		})
+		rq.CutEdge = func(b *ssa.BasicBlock, i int) bool { return (q.CutEdge != nil && q.CutEdge(b, i)) || behind(b, i) }
+		if ok, _ := engine.PathExists(fn, nil, engine.IsInstr(r), rq); !ok {
 			continue
 		}
 		if mayNil {
